@@ -4,6 +4,10 @@ import (
 	"fmt"
 	"go/token"
 	"go/types"
+	"os"
+	"os/exec"
+	"path/filepath"
+	"regexp"
 	"strings"
 
 	"golang.org/x/tools/go/ssa"
@@ -57,6 +61,12 @@ func ruleBounds(c *Ctx) *RuleResult {
 	// the abstract interpreter decides computed indices on lists whose length it knows
 	c.run("K-CALL/json")
 	c.run("K-EVAL/json")
+	unproven, bceErr := c.compilerUnproven()
+	if bceErr != nil {
+		r.undecided("compiler-bce", "-", "", bceErr.Error())
+	} else {
+		r.Notes = append(r.Notes, fmt.Sprintf("compiler prove pass: %d bounds checks left in package jmespath (go build -gcflags=-d=ssa/check_bce/debug=1)", len(unproven)))
+	}
 	for _, fn := range allFuncs(c.SLib) {
 		if !c.scopeOf(fn)["eval"] || c.file(fn.Pos()) == "api.go" {
 			continue
@@ -90,6 +100,8 @@ func ruleBounds(c *Ctx) *RuleResult {
 					r.ok(key, pos, fname(fn), fmt.Sprintf("decided by abstract interpretation on lists of known length: in range in all %d contexts (argument counts 0..N of K-CALL, the slice triple of S6)", c.evIndex[ia][0]))
 				case c.evIndex[ia][1] > 0:
 					r.viol(key, pos, fname(fn), "the abstract interpreter found this index out of range (see K-CALL/K-EVAL index obligations)")
+				case unproven != nil && !unproven[pos]:
+					r.ok(key, pos, fname(fn), "proved in range by the Go compiler's prove pass (bounds check eliminated: not listed by -d=ssa/check_bce)")
 				case fn.Name() == "Less" || fn.Name() == "Swap":
 					if c.sortContract(fn, ia) {
 						r.ok(key, pos, fname(fn), "sort.Interface contract: Len() returns len of the same field that is indexed with the method's own parameters")
@@ -103,6 +115,39 @@ func ruleBounds(c *Ctx) *RuleResult {
 		}
 	}
 	return r
+}
+
+// compilerUnproven: positions (file:line:col, relative to the repository)
+// of the bounds checks the Go compiler's prove pass could NOT eliminate, as
+// listed by -d=ssa/check_bce. A site that is absent from the list is proved
+// in range by the compiler. The package is compiled, not run.
+func (c *Ctx) compilerUnproven() (map[string]bool, error) {
+	if c.bce != nil || c.bceErr != nil {
+		return c.bce, c.bceErr
+	}
+	cache := filepath.Join(verifDir(), ".cache", "gobce")
+	os.MkdirAll(cache, 0o755)
+	cmd := exec.Command("go", "build", "-gcflags=-d=ssa/check_bce/debug=1", "-o", os.DevNull, ".")
+	cmd.Dir = c.Root
+	cmd.Env = append(os.Environ(), "GOFLAGS=-mod=mod", "GOPROXY=off", "GOSUMDB=off", "GOWORK=off", "GOTOOLCHAIN=local", "GOCACHE="+cache)
+	if c.Arch != "" {
+		cmd.Env = append(cmd.Env, "GOARCH="+c.Arch)
+	}
+	if c.Tags != "" {
+		cmd.Args = append(cmd.Args[:2], append([]string{"-tags=" + c.Tags}, cmd.Args[2:]...)...)
+	}
+	out, err := cmd.CombinedOutput()
+	re := regexp.MustCompile(`(?m)^\./([^:]+):(\d+):(\d+): Found Is(Slice)?InBounds`)
+	m := map[string]bool{}
+	for _, g := range re.FindAllStringSubmatch(string(out), -1) {
+		m[g[1]+":"+g[2]+":"+g[3]] = true
+	}
+	if err != nil && len(m) == 0 {
+		c.bceErr = fmt.Errorf("go build -gcflags=-d=ssa/check_bce failed: %v: %s", err, strings.TrimSpace(string(out)))
+		return nil, c.bceErr
+	}
+	c.bce = m
+	return m, nil
 }
 
 // indexGuard: reason why ia is in range, or "".
